@@ -39,9 +39,9 @@ class Check(FormulaCheck):
         q = tier == 'quick'
         specs = [{'campaign': 'sentinels'}, {'campaign': 'slots'}, {'campaign': 'percent', 'lo': 0, 'hi': 10001}]
         for i in range(16):
-            specs.append({'campaign': 'literals', 'seed': seed, 'n': 700 if q else 30000, 'i': i})
-            specs.append({'campaign': 'strings', 'seed': seed, 'n': 500 if q else 25000, 'i': i})
-            specs.append({'campaign': 'renderings', 'seed': seed, 'n': 500 if q else 18000, 'i': i, 'layouts': 4 if q else 8})
+            specs.append({'campaign': 'literals', 'seed': seed, 'n': 1500 if q else 30000, 'i': i})
+            specs.append({'campaign': 'strings', 'seed': seed, 'n': 1200 if q else 25000, 'i': i})
+            specs.append({'campaign': 'renderings', 'seed': seed, 'n': 900 if q else 18000, 'i': i, 'layouts': 4 if q else 8})
             specs.append({'campaign': 'arrays', 'seed': seed, 'n': 200 if q else 8000, 'i': i})
         return specs
 
